@@ -264,6 +264,12 @@ func streamMsgReal(c *ctx) {
 						plen = 65535
 					}
 				}
+				if round == 0 && (alg == 10 || alg == 11 || alg == 30 || alg == 31) {
+					plen = 65535 - c.r.intn(16) // the largest plaintexts CCM with a 2-byte length field takes
+				}
+				if round == 1 && (alg == 12 || alg == 13 || alg == 32 || alg == 33 || alg <= 3 || alg == 24) && alg > 0 {
+					plen = pick(c.r, []int{65535, 65536, 70000})
+				}
 				payload := c.r.bytes(plen)
 				ext, _ := genExt(c)
 				if ((alg >= 10 && alg <= 13) || (alg >= 30 && alg <= 33)) && (round == 0 || c.r.intn(4) == 0) {
